@@ -48,7 +48,7 @@ def drive(tier, tag):
         R.add("chain.select", {"name": "mainnet"}, {"k": "ret", "cls": "", "params": bitcoin.params.NAME, "coreparams": bitcoin.core.coreparams.NAME}, tid=tid, k=k)
         for step in range(40 if tier == "quick" else 80):
             k += 1
-            c = r.randrange(10)
+            c = r.randrange(11)
             if c < 3:
                 name = r.choice(CHAINS + ["bogus", "Mainnet", "test"])
                 kk, v = call(bitcoin.SelectParams, name)
@@ -92,6 +92,18 @@ def drive(tier, tag):
                                                 "P2WSHBitcoinAddress": "P2WSH"}.get(type(a).__name__, type(a).__name__), "payload": b2l(a.to_bytes())}
                 kk, v = call(f)
                 R.add("chain.parse", {"text": text(t)}, v if kk == "ret" else dict(exc_info(v), k="exc"), tid=tid, k=k)
+            elif c == 10:
+                # the selected chain's genesis block, and the genesis block of some chain checked under the selected one
+                from bitcoin.core import CheckBlock
+                g = bitcoin.params.GENESIS_BLOCK
+                other = r.choice(CHAINS)
+                og = {"mainnet": bitcoin.core.CoreMainParams, "testnet": bitcoin.core.CoreTestNetParams, "signet": bitcoin.core.CoreSigNetParams,
+                      "regtest": bitcoin.core.CoreRegTestParams}[other].GENESIS_BLOCK
+                kk, v = call(CheckBlock, og, True, True, 1700000000)
+                R.add("chain.genesis", {"other": other},
+                      {"block": gen.proj_block(g), "hash": b2l(g.GetHash()), "core_same": bitcoin.core.coreparams.GENESIS_BLOCK == g,
+                       "halving": bitcoin.params.SUBSIDY_HALVING_INTERVAL, "max_money": le(bitcoin.params.MAX_MONEY, 8),
+                       "check_other": {"k": "ret"} if kk == "ret" else dict(exc_info(v), k="exc")}, tid=tid, k=k)
             else:
                 if r.random() < 0.5:
                     sec, comp = r.choice(secrets + [gen.rbytes(r, 32)]), bool(r.getrandbits(1))
